@@ -427,6 +427,14 @@ def occurrences_roots_and_independence(ctx):
             got = "%s: %s" % (type(e).__name__, e)
         if not (isinstance(got, dict) and K.same_value(got, exp)):
             ctx.fail("factory object does not mirror the type's content model", meta, repr(got), repr(exp), kind="special")
+        elif "." not in name:
+            # the members are members in every way the object offers: iteration, len, `in`
+            o = client.factory.create(T + name)
+            keys = sorted(k for k in exp if k != "__class__")
+            seen = [sorted(k for k, _v in o), len(o), all(k in o for k in keys)]
+            if seen != [keys, len(keys), True]:
+                ctx.fail("a member of the created object is missing from its iteration / len / `in`", meta, seen,
+                         [keys, len(keys), True], kind="special")
     for name, spell2 in (("Color", "Color"), ("Color", "ns0:Color"), ("Occ", "Occ"), ("Inner", "order.in")):
         meta = {"stream": "fresh-objects", "name": name, "then": spell2}
         ctx.case(common.canon(meta), True)
